@@ -438,11 +438,12 @@ func randFieldOptions(r *rand.Rand, f *ir.File, c *ir.Config) {
 	}
 	c.Validators = map[string][]string{}
 	for i, o := range pickN(r.Intn(3)) {
-		c.Validators[key(o)] = []string{V(fmt.Sprintf("v%da", i)), V(fmt.Sprintf("v%db", i))}[:1+r.Intn(2)]
+		// (ids with dots and slashes: arguments that look like import paths / version numbers)
+		c.Validators[key(o)] = []string{V(fmt.Sprintf("v%da", i)), V(fmt.Sprintf("example.dev/v%d.b", i))}[:1+r.Intn(2)]
 	}
 	c.PlanModifiers = map[string][]string{}
 	for i, o := range pickN(r.Intn(3)) {
-		l := []string{PM(fmt.Sprintf("p%da", i)), PM(fmt.Sprintf("p%db", i)), USFU}
+		l := []string{PM(fmt.Sprintf("p%d.5", i)), PM(fmt.Sprintf("p%db", i)), USFU}
 		c.PlanModifiers[key(o)] = l[:1+r.Intn(3)]
 	}
 	if r.Intn(2) == 0 {
